@@ -10,7 +10,7 @@ from ..core import Sub
 PROP = {
     "id": "C19",
     "level": "exploration",
-    "technique": "exhaustive enumeration of the shape lattice (rank 0-3, extents 0-4: 156 shapes) x 6 dtypes + non-array kinds for each of 23 validated constructor arguments; full triple product of a reduced lattice for coupled arrays; oracle: accept exactly the required shape, refuse everything else, and every accepted object must encode to its declared size and decode",
+    "technique": "exhaustive enumeration of the shape lattice (rank 0-3, extents 0-4: 156 shapes) x 6 dtypes + non-array kinds for each of 23 validated constructor arguments; full triple product of a reduced lattice for coupled arrays; oracle: accept exactly the required shape, refuse everything else, and every accepted object must encode to its declared size and decode; coupled arguments also as one and the same object; every kind of event values as the first constructor call of a fresh module state; 4-thread stress",
     "level_text": ("Exploration, exhaustive over a finite lattice: the product (argument x shape x dtype) and the non-array kinds are enumerated "
                    "completely in both tiers. The behavioural core - no accepted object may encode to a size other than the one it "
                    "declares - is checked on every accepted object, independently of which shapes 'should' be accepted."),
